@@ -84,8 +84,13 @@ def gen(rng, tier, index):
             plan["fmt"] = rng.choice(["phylip", "paml"])
         elif r < 0.30:
             plan["cmp"] = ".zip"
+        elif r < 0.38:
+            plan["fail"] = "formatter_raises"
+            plan["fmt"] = "json"
     elif site == "PhyloNode.write":
         plan["fmt"] = rng.choice(TREE_FORMATS)
+        if rng.random() < 0.2:
+            plan["fail"] = "formatter_raises"
     elif site == "Table.write":
         plan["fmt"] = rng.choice(TABLE_FORMATS)
         plan["compress_arg"] = rng.random() < 0.2
@@ -110,6 +115,8 @@ def gen(rng, tier, index):
             plan["fail"] = "bad_format"
     elif site == "ScoredTreeCollection.write":
         plan["fmt"] = "trees"
+        if rng.random() < 0.25:
+            plan["fail"] = "formatter_raises"  # a later tree of the list fails to format
     elif site in ("atomic_write.zip", "open_.zip"):
         plan["fmt"] = "txt"
         plan["cmp"] = ".zip"
@@ -181,10 +188,18 @@ def make_writer(plan):
         if fail == "unknown_format":
             key = "file_format" if site.startswith("new.") else "format"
             kw[key] = "nonsense"
+        if fail == "formatter_raises":
+            def _bad_json(*a, **k):
+                raise _Boom("serialisation failed")
+            obj.to_json = _bad_json
         return (lambda p: obj.write(p, **kw)), name
 
     if site == "PhyloNode.write":
         tree = _tree(plan)
+        if fail == "formatter_raises":
+            def _bad(*a, **k):
+                raise _Boom("formatting failed")
+            tree.get_newick = tree.get_xml = tree.to_json = _bad
         return (lambda p: tree.write(p)), name
 
     if site == "Table.write":
@@ -239,7 +254,13 @@ def make_writer(plan):
         from cogent3.phylo.tree_collection import ScoredTreeCollection
 
         tree = _tree(plan)
-        coll = ScoredTreeCollection([(float(i) + 0.5, tree) for i in range(max(1, plan["len"] // 30))])
+        items = [(float(i) + 0.5, tree) for i in range(max(1, plan["len"] // 30))]
+        if fail == "formatter_raises":
+            class _BadTree:
+                def get_newick(self, **kw):
+                    raise _Boom("this tree cannot be formatted")
+            items.append((9.5, _BadTree()))
+        coll = ScoredTreeCollection(items)
         return (lambda p: coll.write(p)), f"out.trees{cmp if cmp != '.zip' else ''}"
 
     text = "".join(f"line {i}\n" for i in range(max(1, plan["len"] // 3)))
